@@ -227,5 +227,26 @@ class X01(StrCheck):
         return sharded("x01", e, ["--gen", "x01", "--seed", str(seed)] + (self.args_quick if q else self.args_thorough), self.shards_quick if q else self.shards_thorough)
 
 
-EXTRA = {"X01": X01}
+class X02(X01):
+    """More growth beyond the listed properties: exact hash values (Hash.tla: FNV-1a in the width of size_t, limb
+    arithmetic, model-checked against the published test vectors), view() windows into the object's own storage,
+    std::string copies and terminators of ST::string and all four buffer types, c_str(substitute), user-defined
+    literals (_st, _stbuf)."""
+    pid = "X02"
+    args_quick = ["--alpha", "97,0,255", "--maxlen", "3", "--count", "300"]
+    args_thorough = ["--alpha", "97,98,0,128,255", "--maxlen", "4", "--count", "20000"]
+    level_text = "extra coverage: exact FNV-1a hash values, views, copies, c_str(substitute), literals"
+    rule = ("all strings over a small alphabet + every byte value + size classes around the small-string limit, 40 and 300 bytes: "
+            "ST::hash / std::hash / ST::hash_i against FNV-1a computed by TLC; every view(start[,len]) window; c_str(substitute)")
+
+    def models(self, tier):
+        return [("MC_Hash", "MC_Hash")]
+
+    def jobs(self, tier, seed):
+        e = vlib.build("exec_strops")
+        q = tier == "quick"
+        return sharded("x02", e, ["--gen", "x02", "--seed", str(seed)] + (self.args_quick if q else self.args_thorough), self.shards_quick if q else self.shards_thorough)
+
+
+EXTRA = {"X01": X01, "X02": X02}
 CHECKS = {"C06": C06, "C07": C07, "C08": C08, "C09": C09}
